@@ -24,7 +24,7 @@ from common import ToolError, log
 LEVEL = "model_checking"
 BIN = "c11"
 
-STARK_CFGS = {0: "RecVerifier_stark_l0", 1: "RecVerifier_stark_l1", 2: "RecVerifier_stark", 3: "RecVerifier_stark_l3",
+STARK_CFGS = {"lk": "RecVerifier_starklk", 0: "RecVerifier_stark_l0", 1: "RecVerifier_stark_l1", 2: "RecVerifier_stark", 3: "RecVerifier_stark_l3",
               "var": "RecVerifier_starkvar", "arith": "RecVerifier_vararith"}
 CANARIES = {
     "grinding range check": "RecVerifier_canary_stark_pow",
@@ -33,6 +33,7 @@ CANARIES = {
     "quotient-oracle Merkle check": "RecVerifier_canary_stark_oracle1",
     "last bit of the grinding range check (one leading zero too few enforced)": "RecVerifier_canary_stark_pow1",
     "length check of the assignment routine (surplus elements silently dropped)": "RecVerifier_canary_stark_assign",
+    "next-row part of the in-circuit lookup column evaluator (reads the local row)": "RecVerifier_canary_lk_next_reads_local",
 }
 MUTANTS = {
     "step_active reads the degree bits from index 0": "RecVerifier_canary_step_index_zero",
@@ -41,6 +42,20 @@ MUTANTS = {
     "native verifier does not pad the transcript": "RecVerifier_canary_nopad_native",
 }
 VC = {"rate": 1, "cap": 4, "a": 2, "f": 3, "maxdb": 8, "mindb": 4}
+
+
+def lookup_members(tier, lkclasses):
+    """STARKs with a logUp lookup: every circuit-side column / filter evaluator that has a native twin
+    (variant: 0 single, 1 single_next_row, 2 linear combination + filter, 3 linear combination with next row + product
+    filter, 4 two columns, one read on the next row with a next-row filter, 5 table declared on the next row)"""
+    quick = [(1, 2, 2), (3, 3, 1), (4, 2, 1), (0, 3, 2)]
+    more = [(2, 2, 2), (5, 3, 1), (1, 3, 1), (3, 2, 2), (4, 3, 2), (5, 2, 2), (2, 3, 1), (0, 2, 1)]
+    rows = []
+    for v, d, nc in quick + (more if tier == "thorough" else []):
+        rows.append({"id": "l%d_d%d_c%d" % (v, d, nc), "family": "lk", "variant": v, "mode": "fixed", "d": d,
+                     "cfg": dict(rate=1, cap=4, a=2, f=3, nc=nc, q=42, pow=8), "maxdb": 7, "dbs": [7], "per_class": 1, "sample": 1,
+                     "classes": {str(k): lkclasses for k in range(4)}})
+    return rows
 
 
 def scenarios(tier, rnd, varcfgs, classes):
@@ -137,7 +152,11 @@ def judge(byid, res, cats, varcat, report, selftest=False):
         sh = shape[x["id"]]
         nl = min(x["layers"], 3)
         is_vc = sh["mode"] == "var" and all(s["cfg"][k] == v for k, v in VC.items() if k in s["cfg"]) and s["maxdb"] == 8 and s["mindb"] == 4
-        exp = (varcat.get((x["class"], x["db"])) if is_vc else None) or cats[nl].get(x["class"])
+        is_lk = s.get("family") == "lk"
+        if is_lk and x["class"] == "none" or x["class"].startswith("honest_lk_"):
+            m = st.setdefault("lookup_members", {}).setdefault(x["id"], dict(sh.get("member") or {}, honest_both_accept=False))
+            m["honest_both_accept"] = m["honest_both_accept"] or bool(x["native"] and x["circuit"])
+        exp = cats["lk"].get(x["class"]) if is_lk else ((varcat.get((x["class"], x["db"])) if is_vc else None) or cats[nl].get(x["class"]))
         if exp is None and x["class"] == "unpadded":
             exp = {"expect": "any", "first": []}
         if exp is None:
@@ -243,14 +262,15 @@ def run(chk, tier):
         raise bg["build_error"]
     for k in MUTANTS:
         named.pop(k, None)
-    cats = {nl: {l["class"]: l for l in cats_lines[nl]} for nl in (0, 1, 2, 3)}
+    cats = {nl: {l["class"]: l for l in cats_lines[nl]} for nl in (0, 1, 2, 3, "lk")}
     varcat = {(l["class"], l["db"]): l for l in cats_lines["var"]}
     # the var-degree configurations of the model (printed once by the arithmetic instance)
     varcfgs = common.tagged(c06.LAST_PRINTS["arith"], "VARCFGS")[0]
     chk.extra["model_var_configurations"] = len(varcfgs)
     chk.sample({"catalogue_line": cats_lines["var"][0]})
-    classes = {str(nl): sorted(set(cats[nl]) | {"unpadded"}) for nl in cats}
-    rows = scenarios(tier, rnd, varcfgs, classes)
+    classes = {str(nl): sorted(set(cats[nl]) | {"unpadded"}) for nl in cats if nl != "lk"}
+    lkclasses = sorted(c for c in cats["lk"] if not c.startswith("shape:") and not c.startswith("pow_") and "@last" not in c)
+    rows = scenarios(tier, rnd, varcfgs, classes) + lookup_members(tier, lkclasses)
     res = run_parallel(rows, "c11_run", 3)
     common.write_ndjson(os.path.join(common.OUT, "c11_results.ndjson"), res)
     byid = {r["id"]: r for r in rows}
@@ -276,7 +296,15 @@ def run(chk, tier):
     chk.extra["lengths_agreeing_cases"] = st["lengths"]
     chk.extra["unsupported_lengths"] = st["unsupported_lengths"]
     chk.extra["circuits"] = [x["shape"] for x in res if "shape" in x]
-    need = {c for c in set(cats[2]) - {"none", "pow_exact"} if not c.startswith("shape:")}
+    need = {c for c in set(cats[2]) - {"none", "pow_exact"} if not c.startswith("shape:")} | {"corrupt_lookup", "op_aux", "op_aux_next", "aux_cap"}
+    # lookup members: at least one with a next-row lookup column and constraint degree > 0 accepted on both sides when honest,
+    # and one without (the control)
+    lm = st.get("lookup_members", {})
+    chk.extra["lookup_members"] = lm
+    if not any(m.get("next_row_column") and m.get("degree", 0) > 0 and m["honest_both_accept"] for m in lm.values()) \
+            or not any(not m.get("next_row_column") and m["honest_both_accept"] for m in lm.values()) \
+            or not any(m.get("product_filter") and m["honest_both_accept"] for m in lm.values()):
+        raise ToolError("vacuity: lookup members: %s" % lm)
     shp = st.get("shape", {})
     chk.extra["shape_classes"] = shp
     fixed_layers = {min(len(x["shape"]["circuit_layers"]), 3) for x in res if "shape" in x and x["shape"]["mode"] == "fixed"}
